@@ -19,208 +19,7 @@ verus! {
     ensures m == mk_match(aut, sid, index as nat, at as int)
 //@@ end
 
-//@@ item src/automaton.rs | enum StreamChunk<'r>
-//@@ end
-
-// R-path: `crate::util::buffer::Buffer` -> `Buffer` (single-module extraction)
-//@@ item src/automaton.rs | struct StreamChunkIter<'a, A, R>
-//@@ sub 1 /crate::util::buffer::Buffer/ => Buffer
-//@@ end
-
-impl<'a, A: Automaton, R: vio::Read> StreamChunkIter<'a, A, R> {
-    // absolute stream offset of buffer()[0]
-    spec fn base(&self) -> int { self.absolute_pos - self.buffer_pos }
-    // absolute offset up to which bytes have been handed to the caller
-    spec fn reported(&self) -> int { self.base() + self.buffer_reported_pos }
-    // abstraction: the matches this iterator still has to report
-    spec fn rest(&self) -> Seq<Match> {
-        st_full(self.aut, self.rdr.stream(), self.absolute_pos as int, self.sid)
-    }
-    spec fn inv(&self) -> bool {
-        &&& aut_wf(self.aut)
-        &&& self.aut.kind_s() is Standard
-        &&& self.aut.minlen_s() >= 1
-        &&& self.aut.start_s(Anchored::No) == Some(self.start)
-        &&& self.aut.valid_s(self.sid)
-        &&& self.buf.wf()
-        &&& self.buf.min >= self.aut.maxlen_s()
-        &&& self.buffer_reported_pos <= self.buffer_pos <= self.buf.end
-        &&& self.buffer_pos <= self.absolute_pos
-        &&& self.rdr.stream().len() <= usize::MAX
-        &&& self.rdr.pos() == self.base() + self.buf.end
-        &&& self.rdr.pos() <= self.rdr.stream().len()
-        // the buffer is a window of the stream
-        &&& self.buf.view_s() =~= self.rdr.stream().subrange(self.base(), self.base() + self.buf.end)
-        // the single inequality that keeps `buffer_pos - mat.len()` from underflowing and
-        // prevents any byte from being reported twice or before it is final; it is void once
-        // the whole stream has been consumed and flushed (then no match is pending)
-        &&& (self.drained() || self.need() <= self.buffer_pos - self.buffer_reported_pos)
-        &&& self.aut.depth_s(self.sid) <= self.absolute_pos
-    }
-    // bytes before the current position that may still belong to the next match
-    spec fn need(&self) -> nat {
-        if self.aut.match_s(self.sid) { self.aut.plen_s(self.aut.mpat_s(self.sid, 0)) } else { self.aut.depth_s(self.sid) }
-    }
-    spec fn drained(&self) -> bool {
-        &&& self.rdr.pos() == self.rdr.stream().len()
-        &&& self.buffer_pos == self.buf.end
-        &&& !self.aut.match_s(self.sid)
-    }
-
-//@@ fn src/automaton.rs | fn new( | within=impl<'a, A: Automaton, R: std::io::Read> StreamChunkIter<'a, A, R>
-//@@ sub 1 /crate::util::buffer::Buffer::new/ => Buffer::new
-//@@ header
-        requires
-            aut_wf(aut), rdr.pos() == 0, rdr.stream().len() <= usize::MAX,
-            aut.maxlen_s() <= usize::MAX / 8 - 1,
-        ensures
-            // C13 (b)(d)(a): rejected iff not standard, or an empty pattern, or no unanchored start
-            (res is Ok) == (aut.kind_s() is Standard && aut.minlen_s() >= 1 && aut.start_s(Anchored::No) is Some),
-            res is Ok ==> res->Ok_0.inv() && res->Ok_0.aut == aut && res->Ok_0.rdr == rdr
-                && res->Ok_0.reported() == 0
-                && res->Ok_0.rest() == st_rest(aut, rdr.stream(), 0, aut.start_s(Anchored::No)->Some_0),
-//@@ end
-
-//@@ fn src/automaton.rs | fn get_match_chunk(&self, mat: Match) -> core::ops::Range<usize> | res=r
-//@@ header
-        requires mat.span.start <= mat.span.end, mat.span.end - mat.span.start <= self.buffer_pos,
-        ensures r.start == self.buffer_pos - (mat.span.end - mat.span.start), r.end == self.buffer_pos,
-//@@ end
-
-//@@ fn src/automaton.rs | fn get_non_match_chunk( | res=r
-//@@ header
-        requires mat.span.start <= mat.span.end, mat.span.end - mat.span.start <= self.buffer_pos,
-        ensures
-            r is Some ==> r->Some_0.start == self.buffer_reported_pos
-                && r->Some_0.end == self.buffer_pos - (mat.span.end - mat.span.start)
-                && r->Some_0.start < r->Some_0.end,
-            r is None ==> self.buffer_pos - (mat.span.end - mat.span.start) <= self.buffer_reported_pos,
-//@@ end
-
-//@@ fn src/automaton.rs | fn get_pre_roll_non_match_chunk(&self) -> Option<core::ops::Range<usize>> | res=r
-//@@ header
-        requires self.buf.wf(),
-        ensures
-            r is Some ==> r->Some_0.start == self.buffer_reported_pos && r->Some_0.start < r->Some_0.end
-                && self.buf.end >= self.buf.min && r->Some_0.end == self.buf.end - self.buf.min,
-            r is None ==> self.buf.end < self.buf.min || self.buf.end - self.buf.min <= self.buffer_reported_pos,
-//@@ end
-
-//@@ fn src/automaton.rs | fn get_eof_non_match_chunk(&self) -> Option<core::ops::Range<usize>> | res=r
-//@@ header
-        requires self.buf.wf(),
-        ensures
-            r is Some ==> r->Some_0.start == self.buffer_reported_pos && r->Some_0.end == self.buf.end
-                && r->Some_0.start < r->Some_0.end,
-            r is None ==> self.buf.end <= self.buffer_reported_pos,
-//@@ end
-
-//@@ fn src/automaton.rs | fn get_match(&self) -> Match | within=impl<'a, A: Automaton, R: std::io::Read> StreamChunkIter<'a, A, R> | res=m
-//@@ header
-        requires aut_wf(self.aut), self.aut.valid_s(self.sid), self.aut.match_s(self.sid),
-                 self.aut.depth_s(self.sid) <= self.absolute_pos,
-        ensures m == mk_match(self.aut, self.sid, 0, self.absolute_pos as int)
-//@@ end
-
-//@@ fn src/automaton.rs | fn next(&mut self) -> Option<std::io::Result<StreamChunk>> | within=impl<'a, A: Automaton, R: std::io::Read> StreamChunkIter<'a, A, R>
-//@@ sub 1 /for &byte in (self\.buf\.buffer\(\)\[self\.buffer_pos\.\.\]\.iter\(\)) \{/ => for byte__ref in it: \1 { let byte = *byte__ref;
-//@@ header
-        requires old(self).inv(),
-        ensures
-            final(self).inv(),
-            final(self).aut == old(self).aut,
-            final(self).rdr.stream() == old(self).rdr.stream(),
-            match res {
-                // C18: end of stream is reported only when the reader reported it, and then
-                // everything has been handed over
-                None => old(self).rest().len() == 0
-                    && final(self).reported() == final(self).rdr.stream().len()
-                    && final(self).rdr.pos() == final(self).rdr.stream().len(),
-                // C18: a read error surfaces as an item and loses nothing
-                Some(Err(_)) => final(self).reported() == old(self).reported()
-                    && final(self).rest() == old(self).rest(),
-                // C08: a non-match chunk is the next unreported bytes, never reaching into the next match
-                Some(Ok(StreamChunk::NonMatch { bytes })) =>
-                    bytes@.len() > 0
-                    && final(self).reported() == old(self).reported() + bytes@.len()
-                    && bytes@ == old(self).rdr.stream().subrange(old(self).reported(), old(self).reported() + bytes@.len())
-                    && final(self).rest() == old(self).rest()
-                    && (old(self).rest().len() > 0 ==> final(self).reported() <= old(self).rest()[0].span.start),
-                // C07/C08: a match chunk is the next match of the abstract run, with its bytes
-                Some(Ok(StreamChunk::Match { bytes, mat })) =>
-                    old(self).rest().len() > 0 && mat == old(self).rest()[0]
-                    && old(self).reported() == mat.span.start
-                    && final(self).reported() == mat.span.end
-                    && bytes@ == old(self).rdr.stream().subrange(mat.span.start as int, mat.span.end as int)
-                    && final(self).rest() == old(self).rest().skip(1),
-            },
-//@@ loop 1
-            invariant
-                self.inv(), self.aut == old(self).aut,
-                self.rdr.stream() == old(self).rdr.stream(),
-                self.reported() == old(self).reported(),
-                self.rest() == old(self).rest(),
-            decreases
-                self.rdr.stream().len() - self.absolute_pos,
-                (if self.aut.match_s(self.sid) { 0int } else { 1int }),
-                self.rdr.stream().len() - self.rdr.pos(),
-                self.buf.end - self.buffer_pos,
-//@@ loop 2
-                invariant_except_break
-                    !self.aut.match_s(self.sid),
-                    self.absolute_pos == start + it.index@,
-                invariant
-                    aut_wf(self.aut), self.aut == old(self).aut, self.aut.valid_s(self.sid),
-                    self.aut.start_s(Anchored::No) == Some(self.start),
-                    self.rdr.stream() == old(self).rdr.stream(), self.rdr.stream().len() <= usize::MAX,
-                    self.buf == before.buf, self.buffer_pos == before.buffer_pos, self.rdr == before.rdr,
-                    self.buffer_reported_pos == before.buffer_reported_pos, self.start == before.start,
-                    before.inv(), start == before.absolute_pos, before.buffer_pos < before.buf.end,
-                    start <= self.absolute_pos <= start + (before.buf.end - before.buffer_pos),
-                    self.aut.depth_s(self.sid) <= before.buffer_pos + (self.absolute_pos - start) - before.buffer_reported_pos,
-                    self.aut.depth_s(self.sid) <= self.absolute_pos,
-                    st_full(self.aut, self.rdr.stream(), self.absolute_pos as int, self.sid) == old(self).rest(),
-                ensures
-                    aut_wf(self.aut), self.aut == old(self).aut, self.aut.valid_s(self.sid),
-                    self.aut.start_s(Anchored::No) == Some(self.start),
-                    self.rdr.stream() == old(self).rdr.stream(),
-                    self.buf == before.buf, self.buffer_pos == before.buffer_pos, self.rdr == before.rdr,
-                    self.buffer_reported_pos == before.buffer_reported_pos, self.start == before.start,
-                    start <= self.absolute_pos <= start + (before.buf.end - before.buffer_pos),
-                    self.absolute_pos > start,
-                    self.aut.depth_s(self.sid) <= before.buffer_pos + (self.absolute_pos - start) - before.buffer_reported_pos,
-                    self.aut.depth_s(self.sid) <= self.absolute_pos,
-                    st_full(self.aut, self.rdr.stream(), self.absolute_pos as int, self.sid) == old(self).rest(),
-//@@ before /if let Some\(r\) = self\.get_pre_roll_non_match_chunk\(\) \{/
-                proof {
-                    assert(self.buffer_pos == self.buf.end);
-                    assert(!self.aut.match_s(self.sid));
-                    if !self.drained() {
-                        lemma_st_rest_starts(self.aut, self.rdr.stream(), self.absolute_pos as int, self.sid);
-                    }
-                }
-//@@ before /let start = self\.absolute_pos;/
-            let ghost before = *self;
-            proof {
-                assert(!self.aut.match_s(self.sid));
-                assert(self.buffer_pos < self.buf.end);
-                assert(!self.drained());
-            }
-//@@ after /let byte = \*byte__ref;/
-                proof {
-                    let strm = self.rdr.stream();
-                    let abs = self.absolute_pos as int;
-                    assert(it.index@ < before.buf.end - before.buffer_pos);
-                    assert(byte == before.buf.view_s()[before.buffer_pos + it.index@]);
-                    assert(before.buf.view_s()[before.buffer_pos + it.index@] == strm[before.base() + before.buffer_pos + it.index@]);
-                    assert(byte == strm[abs]);
-                    assert(abs < strm.len());
-                    let s2 = self.aut.delta(Anchored::No, self.sid, byte);
-                    assert(st_full(self.aut, strm, abs, self.sid) == st_rest(self.aut, strm, abs, self.sid));
-                    assert(st_rest(self.aut, strm, abs, self.sid) == st_full(self.aut, strm, abs + 1, s2));
-                }
-//@@ end
-}
+//@@ include streamiter.inc STUB=0
 
 //@@ item src/automaton.rs | pub struct StreamFindIter<'a, A, R>
 //@@ sigsub 1 /pub struct/ => struct
